@@ -18,9 +18,9 @@ META = {
                    'permutation of distinct-name lines and under every rearrangement that keeps the occurrences of a name in order; blank, '
                    'comma-less and #/--/* lines are ignored; any whitespace around name and value and any trailing comment leave name and '
                    'value unchanged; LF/CRLF/CR files with or without final terminator read as the same lines; key iteration order of any '
-                   'class of names (the add-on block) depends only on the order of that class. PARTIAL for the client override clause: '
-                   'overrides appended by GeophiresInputParameters govern when the base text ends with a line feed (proved) and are lost '
-                   'otherwise (C12_client_override_refuted, reproduced on the implementation: known finding). The downstream pipeline is '
+                   'class of names (the add-on block) depends only on the order of that class; the overrides appended by '
+                   'GeophiresInputParameters govern for every base text (code after fix e85b257; the pre-fix append is kept as '
+                   'client_text_pinned with its refutation, witness in corpus/C12). The downstream pipeline is '
                    'covered by a table of every use of InputParameters regenerated from the source (all order-blind except the add-on '
                    'block: C12_lookup_only) plus whole runs of permuted/decorated/duplicated variants compared report against report; it '
                    'is tied, not proved.'),
@@ -205,13 +205,6 @@ def part_client(ctx, n):
                         inp={'part': 'client', 'base_text': base_text, 'params': params}, expected=dict(params),
                         observed={k: got.get(k) for k, _ in params})
     failing = fw.kernel_bools(ctx, 'client', ['Model.Tokenizer'], terms, open_scope='string_scope')
-    if failing:   # the proposed repair (terminate the base text first, cf. fix db0b708 of the Monte-Carlo driver) is a modelled behaviour too
-        again = fw.kernel_bools(ctx, 'client_repaired', ['Model.Tokenizer'],
-                                [terms[i].replace('(client_text ', '(client_text_repaired ', 1) for i in failing], open_scope='string_scope')
-        if len(again) < len(failing):
-            ctx.note(f'{len(failing) - len(again)} client files follow client_text_repaired (base text terminated before the overrides): '
-                     'the repository has adopted the repair; switch the model to it (TokenizerProofs.client_override_repaired)')
-        failing = [failing[i] for i in again]
     for i in failing[:3]:
         ctx.violate('corr', 'client-append:model-disagrees', 'Coq model client_text and GeophiresInputParameters write different files',
                     inp={'part': 'client', 'base_text': cases[i][0], 'params': cases[i][1]}, observed=cases[i][2])
